@@ -32,6 +32,7 @@
 #include <exception>
 #include <iostream>
 #include <iomanip>
+#include <limits>
 #include <sstream>
 #include <string>
 
@@ -156,6 +157,10 @@ void nthPrime(const CmdOptions& opts)
   if (opts.numbers.empty())
     throw primesieve_error("missing n number");
 
+  // n must fit into int64_t
+  if (opts.numbers[0] > (uint64_t) std::numeric_limits<int64_t>::max())
+    throw primesieve_error("n must be <= 2^63-1");
+
   ParallelSieve ps;
   int64_t n = opts.numbers[0];
   uint64_t start = 0;
@@ -171,7 +176,11 @@ void nthPrime(const CmdOptions& opts)
 
   uint64_t nthPrime = 0;
   ps.setStart(start);
-  ps.setStop(start + std::abs(n * 20));
+  // Rough upper bound of the sieving distance, only used
+  // for printSettings(). Saturates instead of overflowing.
+  uint64_t max = std::numeric_limits<uint64_t>::max();
+  uint64_t dist = (opts.numbers[0] <= max / 20) ? opts.numbers[0] * 20 : max;
+  ps.setStop((dist <= max - start) ? start + dist : max);
 
   if (!opts.quiet)
     printSettings(ps);
